@@ -3,6 +3,7 @@
 simkit::interpose_getrandom!();
 
 mod core;
+mod core2;
 mod net;
 mod node;
 mod probe;
@@ -10,5 +11,6 @@ mod probe;
 fn main() {
     let mut checks = vec![];
     checks.extend(core::checks());
+    checks.extend(core2::checks());
     simkit::main_with(checks);
 }
